@@ -167,7 +167,7 @@ func C11(ctx *core.Ctx) int {
 			outcomes[entry+":"+verdictClass(verdict)]++
 			if strings.HasPrefix(verdict, "panic|") {
 				bad = true
-				ctx.Report("library "+entry+"|"+verdict, fmt.Sprintf("input %s\n%s", in.Name, core.Trunc(in.Text, 500)), rep)
+				ctx.Report(crashSig("library "+entry, verdict, in.Text), fmt.Sprintf("input %s: %s\n%s", in.Name, verdict, core.Trunc(in.Text, 500)), rep)
 			}
 		}
 		switch {
@@ -184,7 +184,7 @@ func C11(ctx *core.Ctx) int {
 				os.WriteFile(fmt.Sprintf("/var/tmp/died.%d.dsl", i), []byte(in.Text), 0o644)
 			}
 			outcomes["worker:"+r.Crashed]++
-			ctx.Report("library (format/parse/generate)|"+r.Crashed, fmt.Sprintf("input %s kills the process\n%s", in.Name, core.Trunc(in.Text, 500)), rep)
+			ctx.Report(crashSig("library (format/parse/generate)", r.Crashed, in.Text), fmt.Sprintf("input %s kills the process: %s\n%s", in.Name, r.Crashed, core.Trunc(in.Text, 500)), rep)
 		case r.ID == -1:
 			core.HarnessError("no verdict for input %s", in.Name)
 		default:
@@ -319,7 +319,7 @@ func c11Artefacts(ctx *core.Ctx, corpus []c11Input, ids []int, outcomes map[stri
 				se := stderr.String() + stdout.String()
 				if crashed(err, se) {
 					class = "crash"
-					ctx.Report(entry+"|"+crashClass(se), fmt.Sprintf("input %s crashes %s\n%s\n--- stderr\n%s", in.Name, entry, core.Trunc(in.Text, 400), core.Trunc(stderr.String(), 1200)), rep)
+					ctx.Report(crashSig(entry, crashClass(se), in.Text), fmt.Sprintf("input %s crashes %s: %s\n%s\n--- stderr\n%s", in.Name, entry, crashClass(se), core.Trunc(in.Text, 400), core.Trunc(stderr.String(), 1200)), rep)
 				}
 			}
 			mu.Lock()
